@@ -469,6 +469,10 @@ impl WalRecord {
     }
 }
 
+/// Upper bound on the body of a single record. The reader treats a larger length field as
+/// garbage after the end of the log, so the writer must never produce one.
+const MAX_WAL_RECORD_LEN: u32 = 1024 * 1024; // 1MB
+
 #[derive(Debug)]
 pub struct Wal {
     path: PathBuf,
@@ -501,6 +505,9 @@ impl Wal {
         };
         let body = record.encode_body()?;
         let len = u32::try_from(body.len()).map_err(|_| Error::WalRecordTooLarge(u32::MAX))?;
+        if len > MAX_WAL_RECORD_LEN {
+            return Err(Error::WalRecordTooLarge(len));
+        }
         let crc = crc32(&body);
 
         let offset = file.metadata()?.len();
@@ -540,6 +547,9 @@ impl Wal {
                 let body = record.encode_body()?;
                 let len =
                     u32::try_from(body.len()).map_err(|_| Error::WalRecordTooLarge(u32::MAX))?;
+                if len > MAX_WAL_RECORD_LEN {
+                    return Err(Error::WalRecordTooLarge(len));
+                }
                 let crc = crc32(&body);
                 file.write_all(&len.to_le_bytes())?;
                 file.write_all(&crc.to_le_bytes())?;
@@ -717,9 +727,10 @@ impl WalReader {
             return Ok(None);
         };
 
-        const MAX_WAL_RECORD_LEN: u32 = 1024 * 1024; // 1MB
         if len > MAX_WAL_RECORD_LEN {
-            return Err(Error::WalRecordTooLarge(len));
+            // No writer produces such a record: these bytes are garbage after the last
+            // complete record. Treat them like any other torn tail.
+            return Ok(None);
         }
 
         let Some(crc) = self.try_read_u32()? else {
@@ -741,9 +752,13 @@ impl WalReader {
             return Ok(None);
         }
 
-        self.offset += 4 + 4 + len as u64;
+        // A body that does not decode (e.g. zero-filled space, whose empty body has a matching
+        // checksum of 0) is not a record either: end of log.
+        let Ok(record) = WalRecord::decode_body(&body) else {
+            return Ok(None);
+        };
 
-        let record = WalRecord::decode_body(&body)?;
+        self.offset += 4 + 4 + len as u64;
         Ok(Some((record_offset, record)))
     }
 
